@@ -282,7 +282,7 @@ func VerifHTMLTree(n int) {
 	verifHTMLTreeCheck(in)
 }
 
-// VerifHTMLTreeWitness: the recorded witnesses of known findings of the tree harness, replayed on every run (the
+// VerifHTMLTreeWitness: the witnesses of the (repaired) finding C03-F26 of the tree harness, replayed on every run (the
 // quick bound of VerifHTMLTree is below their size).
 func VerifHTMLTreeWitness(n int) {
 	doc := []string{"<dl><dt></dt><!--c--></dl>", "<ul><li></li><!--c--></ul>"}[vChoice("doc", 2)]
@@ -294,7 +294,8 @@ func VerifHTMLTreeWitness(n int) {
 func VerifHTMLCommentLookahead(n int) {
 	open := []string{"<select><optgroup><option>a</option></optgroup>", "<select><optgroup><option>a</optgroup>", "<select><option>a</option>", "<dl><dt>a</dt>", "<ul><li>a</li>", "<div><p>a</p>"}[vChoice("open", 6)]
 	mid := []string{"<!--c-->", " <!--c--> ", "<!--c--><!--d-->", "", " "}[vChoice("mid", 5)]
-	next := []string{"<option>b</option></select>", "<optgroup><option>b</option></optgroup></select>", "</select>", "<dd>b</dd></dl>", "<li>b</li></ul>", "<p>b</p></div>", "b</div>", "<div>b</div></div>"}[vChoice("next", 8)]
+	next := []string{"<option>b</option></select>", "<optgroup><option>b</option></optgroup></select>", "</select>", "<dd>b</dd></dl>", "<li>b</li></ul>", "<p>b</p></div>", "b</div>", "<div>b</div></div>",
+		"<script>x</script></ul>", "<template></template></ul>", "<script>x</script></dl>", "<script>x</script></select>", "<script>x</script><li>b</li></ul>"}[vChoice("next", 13)]
 	// only matching containers
 	vAssume(rhHas([]byte(open), 0, "<select>") == rtSuffix(next, "</select>"))
 	vAssume(rhHas([]byte(open), 0, "<dl>") == rtSuffix(next, "</dl>"))
@@ -323,24 +324,6 @@ func verifHTMLTreeCheck(in []byte) {
 	want := rtCanon(rtBuild(orig), keepC, nil)
 	got := rtCanon(rtBuild(out), keepC, nil)
 	if !rhEq(want, got) {
-		// recorded finding C03-F26: </li>, </dt>, </dd>, </option> are omitted unconditionally, so a kept comment that follows
-		// such an end tag becomes a child of the element
-		if keepC > 0 && rhEq(rtCanon(rtBuild(orig), 0, nil), rtCanon(rtBuild(out), 0, nil)) {
-			for i := 0; i+5 < len(orig); i++ {
-				if rhHas(orig, i, "</li>") || rhHas(orig, i, "</dt>") || rhHas(orig, i, "</dd>") || rhHas(orig, i, "</option>") {
-					j := i + 5
-					if rhHas(orig, i, "</option>") {
-						j = i + 9
-					}
-					for j < len(orig) && rhWS(orig[j]) {
-						j++
-					}
-					if rhHas(orig, j, "<!--") {
-						vKnown("C03-F26")
-					}
-				}
-			}
-		}
 		vFail("same tree: every omitted end tag is re-inferred at the same place")
 	}
 	vReach("end")
